@@ -236,7 +236,11 @@ def decode(input, errors="strict", encoding=None, force=True):
             encoding = _encoding
 
     # NEEDS: change in parse.py (str to bytes!)
-    (input, consumed) = codecs.getdecoder(encoding)(input, errors)
+    info = codecs.lookup(encoding)
+    if not getattr(info, '_is_text_encoding', True) or info.name == "css":
+        # like bytes.decode(): "hex", "rot13" ... are codecs but decode no text
+        raise LookupError("%r is not a text encoding" % (encoding,))
+    (input, consumed) = info.decode(input, errors)
     return (_fixencoding(input, str(encoding), True), consumed)
 
 
